@@ -43,7 +43,13 @@ type transUnit struct {
 	Dir   string   // package directory relative to the repository
 	File  string   // output file name (without .lean)
 	NS    string   // Lean namespace
-	Mode  string   // "f64": float64 is the exact model F64 ; "mops": float64 is a generic F with [MOps F]
+	Mode  string   // "f64": float64 is the exact model F64 ; "mops": float64 is a generic F with [MOps F] ;
+	// "rat": float64 is an exact rational (bin weights inside the exact envelope, DESIGN §3 (E)); the functions
+	// listed in F64Funcs are translated in "f64" mode (genuine float arithmetic, e.g. getNewLength)
+	F64Funcs map[string]bool
+	// Specialise: "T.M" -> parameter name -> concrete type name: the interface-typed parameter is taken to hold a
+	// *T' of this package (the type assertion `o, ok := p.(*T')` succeeds, `if !ok {…}` is dead code)
+	Specialise map[string]map[string]string
 	Funcs []string // functions ("F") and methods ("T.M") to translate, dependencies first
 	Vars  []string // package-level variables with initialisers to translate (in order, before Funcs that use them)
 	// interfaces and types of other packages (only for units that use them)
@@ -155,7 +161,36 @@ var datasetUnit = transUnit{Dir: "dataset", File: "CodeDataset", NS: "DDS.Gen.Da
 	Funcs: []string{"NewDataset", "Dataset.Add", "Dataset.sort", "Dataset.LowerQuantile", "Dataset.Quantile", "Dataset.UpperQuantile",
 		"Dataset.Min", "Dataset.Max", "Dataset.Sum", "Dataset.Merge"}}
 
-func init() { transUnits = append(transUnits, sketchUnit, datasetUnit) }
+// the dense store and its two collapsing variants: bin weights are exact rationals (mode "rat"), the growth
+// policy `getNewLength` is genuine float64 arithmetic; `MergeWith` is translated for an argument of the
+// receiver's own type (the fast path; the `ForEach` fallback for other kinds is a closure and stays with the
+// hand-written model and the correspondence run)
+var denseUnit = transUnit{Dir: "ddsketch/store", File: "CodeDense", NS: "DDS.Gen.Dense", Mode: "rat",
+	F64Funcs: map[string]bool{"DenseStore.getNewLength": true},
+	Specialise: map[string]map[string]string{
+		"DenseStore.MergeWith":                  {"other": "DenseStore"},
+		"CollapsingLowestDenseStore.MergeWith":  {"other": "CollapsingLowestDenseStore"},
+		"CollapsingHighestDenseStore.MergeWith": {"other": "CollapsingHighestDenseStore"},
+	},
+	Vars: []string{"errUndefinedMinIndex", "errUndefinedMaxIndex"},
+	Funcs: []string{
+		"min", "max", "Bin.Index", "Bin.Count",
+		"NewDenseStore", "DenseStore.IsEmpty", "DenseStore.TotalCount", "DenseStore.MinIndex", "DenseStore.MaxIndex",
+		"DenseStore.getNewLength", "DenseStore.resetBins", "DenseStore.shiftCounts", "DenseStore.centerCounts",
+		"DenseStore.adjust", "DenseStore.extendRange", "DenseStore.normalize", "DenseStore.AddWithCount",
+		"DenseStore.Add", "DenseStore.AddBin", "DenseStore.KeyAtRank", "DenseStore.MergeWith", "DenseStore.Copy",
+		"DenseStore.Clear", "DenseStore.Reweight",
+		"NewCollapsingLowestDenseStore", "CollapsingLowestDenseStore.getNewLength", "CollapsingLowestDenseStore.adjust",
+		"CollapsingLowestDenseStore.extendRange", "CollapsingLowestDenseStore.normalize",
+		"CollapsingLowestDenseStore.AddWithCount", "CollapsingLowestDenseStore.Add", "CollapsingLowestDenseStore.AddBin",
+		"CollapsingLowestDenseStore.MergeWith", "CollapsingLowestDenseStore.Copy", "CollapsingLowestDenseStore.Clear",
+		"NewCollapsingHighestDenseStore", "CollapsingHighestDenseStore.getNewLength", "CollapsingHighestDenseStore.adjust",
+		"CollapsingHighestDenseStore.extendRange", "CollapsingHighestDenseStore.normalize",
+		"CollapsingHighestDenseStore.AddWithCount", "CollapsingHighestDenseStore.Add", "CollapsingHighestDenseStore.AddBin",
+		"CollapsingHighestDenseStore.MergeWith", "CollapsingHighestDenseStore.Copy", "CollapsingHighestDenseStore.Clear",
+	}}
+
+func init() { transUnits = append(transUnits, sketchUnit, datasetUnit, denseUnit) }
 
 type trErr struct{ msg string }
 
@@ -198,6 +233,7 @@ type tr struct {
 	cur     *funcInfo
 	nLoop   int
 	nTmp    int
+	knownTrue map[types.Object]bool // `ok` of a type assertion on a specialised parameter
 }
 
 func (t *tr) fail(n ast.Node, format string, a ...interface{}) {
@@ -225,9 +261,16 @@ func lname(s string) string {
 
 // ---------------------------------------------------------------- types
 
+func (t *tr) rat() bool {
+	return t.unit.Mode == "rat" && !(t.cur != nil && t.unit.F64Funcs[t.cur.key])
+}
+
 func (t *tr) fl() string {
 	if t.unit.Mode == "mops" {
 		return "F"
+	}
+	if t.rat() {
+		return "Rat"
 	}
 	return "F64"
 }
@@ -385,6 +428,9 @@ func (t *tr) constOfType(n ast.Node, v constant.Value, ty types.Type) string {
 		f, _ := new(big.Float).SetPrec(2000).SetRat(r).Float64()
 		fr := new(big.Rat)
 		fr.SetFloat64(f)
+		if t.rat() {
+			return leanRat(fr)
+		}
 		return "(F64.fin " + leanRat(fr) + ")"
 	}
 	t.fail(n, "constant of unsupported type %s", ty)
@@ -409,6 +455,54 @@ func (t *tr) mentionsSymbolic(e ast.Expr) bool {
 		return true
 	})
 	return found
+}
+
+// ---------------------------------------------------------------- embedded fields
+
+// a selector that goes through embedded fields (`s.bins` for `s.DenseStore.bins`, `s.IsEmpty` for
+// `s.DenseStore.IsEmpty`) as the explicit chain of selectors; for a method value the result is the receiver chain
+func (t *tr) explicitSel(x *ast.SelectorExpr) (field *ast.SelectorExpr, recv ast.Expr) {
+	sel, ok := t.info.Selections[x]
+	if !ok || len(sel.Index()) <= 1 {
+		return x, x.X
+	}
+	cur := x.X
+	ty := t.typeOf(x.X)
+	idx := sel.Index()
+	for _, i := range idx[:len(idx)-1] {
+		if p, ok := ty.Underlying().(*types.Pointer); ok {
+			ty = p.Elem()
+		}
+		st, ok := ty.Underlying().(*types.Struct)
+		if !ok {
+			t.fail(x, "promoted selector through a non-struct")
+		}
+		f := st.Field(i)
+		ne := &ast.SelectorExpr{X: cur, Sel: ast.NewIdent(f.Name())}
+		t.info.Types[ne] = types.TypeAndValue{Type: f.Type()}
+		cur = ne
+		ty = f.Type()
+	}
+	if sel.Kind() == types.FieldVal {
+		ne := &ast.SelectorExpr{X: cur, Sel: x.Sel}
+		t.info.Types[ne] = t.info.Types[x]
+		return ne, cur
+	}
+	return x, cur
+}
+
+// the concrete type name a specialised interface parameter is taken to hold ("" if not specialised)
+func (t *tr) specialised(e ast.Expr) string {
+	id, ok := e.(*ast.Ident)
+	if !ok || t.cur == nil {
+		return ""
+	}
+	if m, ok := t.unit.Specialise[t.cur.key]; ok {
+		if _, isVar := t.info.Uses[id].(*types.Var); isVar {
+			return m[id.Name]
+		}
+	}
+	return ""
 }
 
 // ---------------------------------------------------------------- expressions
@@ -569,7 +663,10 @@ func (t *tr) expr(e ast.Expr, c *ectx) string {
 				t.fail(e, "unsupported package member %s.%s", id.Name, x.Sel.Name)
 			}
 		}
-		// field access (also through embedded `byte` fields)
+		// field access (through embedded fields: the explicit chain)
+		if ex, _ := t.explicitSel(x); ex != x {
+			return t.expr(ex, c)
+		}
 		return "(" + t.expr(x.X, c) + ")." + lname(x.Sel.Name)
 	case *ast.UnaryExpr:
 		ty := t.typeOf(x.X)
@@ -578,6 +675,9 @@ func (t *tr) expr(e ast.Expr, c *ectx) string {
 			if isFloat(ty) {
 				if t.unit.Mode == "mops" {
 					return "(MOps.neg " + t.expr(x.X, c) + ")"
+				}
+				if t.rat() {
+					return "(-" + t.expr(x.X, c) + ")"
 				}
 				return "(F64.neg " + t.expr(x.X, c) + ")"
 			}
@@ -611,12 +711,14 @@ func (t *tr) expr(e ast.Expr, c *ectx) string {
 		if c.hoists == nil || c.inSC {
 			t.fail(e, "slice expression needs a fallible, non-short-circuit context")
 		}
-		if x.Slice3 || (x.Low != nil && x.High != nil) {
+		if x.Slice3 {
 			t.fail(e, "unsupported slice expression form")
 		}
 		n := t.tmp()
 		base := t.expr(x.X, c)
-		if x.Low != nil {
+		if x.Low != nil && x.High != nil {
+			*c.hoists = append(*c.hoists, hoist{name: n, kind: "opt", pat: n, expr: "GoSem.slice " + base + " " + t.expr(x.Low, c) + " " + t.expr(x.High, c)})
+		} else if x.Low != nil {
 			*c.hoists = append(*c.hoists, hoist{name: n, kind: "opt", pat: n, expr: "GoSem.sliceFrom " + base + " " + t.expr(x.Low, c)})
 		} else if x.High != nil {
 			*c.hoists = append(*c.hoists, hoist{name: n, kind: "opt", pat: n, expr: "GoSem.sliceTo " + base + " " + t.expr(x.High, c)})
@@ -650,6 +752,27 @@ func (t *tr) binary(x *ast.BinaryExpr, c *ectx) string {
 	a := t.expr(x.X, c)
 	b := t.expr(x.Y, c)
 	switch {
+	case (isFloat(lt) || isFloat(t.typeOf(x.Y))) && t.rat():
+		switch x.Op {
+		case token.ADD:
+			return "(" + a + " + " + b + ")"
+		case token.SUB:
+			return "(" + a + " - " + b + ")"
+		case token.MUL:
+			return "(" + a + " * " + b + ")"
+		case token.LSS:
+			return "(decide (" + a + " < " + b + "))"
+		case token.GTR:
+			return "(decide (" + b + " < " + a + "))"
+		case token.LEQ:
+			return "(decide (" + a + " ≤ " + b + "))"
+		case token.GEQ:
+			return "(decide (" + b + " ≤ " + a + "))"
+		case token.EQL:
+			return "(" + a + " == " + b + ")"
+		case token.NEQ:
+			return "(" + a + " != " + b + ")"
+		}
 	case isFloat(lt) || isFloat(t.typeOf(x.Y)):
 		switch x.Op {
 		case token.ADD:
@@ -813,6 +936,9 @@ func (t *tr) conversion(x *ast.CallExpr, to types.Type, c *ectx) string {
 		if t.unit.Mode == "mops" {
 			return "(MOps.ofInt " + a + " : F)"
 		}
+		if t.rat() {
+			return "((" + a + " : Int) : Rat)"
+		}
 		return "(F64.ofInt " + a + ")"
 	case isFloat(to) && isFloat(from):
 		return a
@@ -821,6 +947,9 @@ func (t *tr) conversion(x *ast.CallExpr, to types.Type, c *ectx) string {
 			return "(MOps.trunc " + a + ")"
 		}
 		// NaN / infinities: the conversion is implementation-defined in Go; treated as a panic (as the model does)
+		if t.rat() {
+			t.fail(x, "float to int conversion on exact weights")
+		}
 		if c.hoists == nil || c.inSC {
 			t.fail(x, "float to int conversion needs a fallible context")
 		}
@@ -835,6 +964,9 @@ func (t *tr) conversion(x *ast.CallExpr, to types.Type, c *ectx) string {
 func (t *tr) stdCall(x *ast.CallExpr, path string, c *ectx) (string, bool) {
 	arg := func(i int) string { return t.expr(x.Args[i], c) }
 	mops := t.unit.Mode == "mops"
+	if t.rat() && strings.HasPrefix(path, "math.") {
+		t.fail(x, "float library call %s on exact weights", path)
+	}
 	switch path {
 	case "math.Float64bits":
 		if mops {
@@ -932,6 +1064,13 @@ func (t *tr) call(x *ast.CallExpr, c *ectx) string {
 				if !ok || len(x.Args) != 2 {
 					t.fail(x, "unsupported make")
 				}
+				if tv := t.info.Types[x.Args[1]]; tv.Value == nil && c.hoists != nil && !c.inSC && t.unit.Mode == "rat" {
+					// a negative length panics
+					n := t.tmp()
+					*c.hoists = append(*c.hoists, hoist{name: n, kind: "opt", pat: n,
+						expr: "GoSem.mkSlice " + t.expr(x.Args[1], c) + " " + t.zero(x, st.Elem())})
+					return n
+				}
 				return "(List.replicate (Int.toNat " + t.expr(x.Args[1], c) + ") " + t.zero(x, st.Elem()) + ")"
 			}
 			t.fail(x, "unsupported builtin %s", id.Name)
@@ -1001,6 +1140,27 @@ func (t *tr) callee(x *ast.CallExpr, c *ectx) (*funcInfo, []string) {
 		obj = t.info.Uses[f.Sel]
 		if sel, ok := t.info.Selections[f]; ok && sel.Kind() == types.MethodVal {
 			recvArg = t.expr(f.X, c) + t.implicitPath(f, sel)
+			if conc := t.specialised(f.X); conc != "" {
+				// the method of the concrete type (possibly promoted from an embedded struct)
+				if tn := t.pkg.Scope().Lookup(conc); tn != nil {
+					ms := types.NewMethodSet(types.NewPointer(tn.Type()))
+					if msel := ms.Lookup(t.pkg, f.Sel.Name); msel != nil {
+						obj = msel.Obj()
+						ty := tn.Type()
+						path := ""
+						idx := msel.Index()
+						for _, i := range idx[:len(idx)-1] {
+							if p, ok := ty.Underlying().(*types.Pointer); ok {
+								ty = p.Elem()
+							}
+							st := ty.Underlying().(*types.Struct)
+							path += "." + lname(st.Field(i).Name())
+							ty = st.Field(i).Type()
+						}
+						recvArg = t.expr(f.X, c) + path
+					}
+				}
+			}
 		}
 	}
 	if obj == nil {
@@ -1124,6 +1284,9 @@ func (t *tr) zero(n ast.Node, ty types.Type) string {
 		if t.unit.Mode == "mops" {
 			return "(MOps.ofInt 0 : F)"
 		}
+		if t.rat() {
+			return "(0 : Rat)"
+		}
 		return "(F64.fin 0)"
 	case basicKind(ty) == types.Bool:
 		return "false"
@@ -1246,6 +1409,9 @@ func (t *tr) assignTo(lhs ast.Expr, rhs string, c *ectx, sc *sctx, k string) str
 			return "let " + lname(id.Name) + " := " + rhs + "\n" + k
 		}
 	case *ast.SelectorExpr:
+		if ex, _ := t.explicitSel(l); ex != l {
+			return t.assignTo(ex, rhs, c, sc, k)
+		}
 		if id, ok := l.X.(*ast.Ident); ok {
 			return "let " + lname(id.Name) + " := { " + lname(id.Name) + " with " + lname(l.Sel.Name) + " := " + rhs + " }\n" + k
 		}
@@ -1261,6 +1427,15 @@ func (t *tr) assignTo(lhs ast.Expr, rhs string, c *ectx, sc *sctx, k string) str
 				comb = "GoSem.optL"
 			}
 			return comb + " (GoSem.set " + lname(id.Name) + " " + t.expr(l.Index, c) + " " + rhs + ") (fun " + lname(id.Name) + " =>\n" + k + ")"
+		}
+		if baseIdent(l.X) != nil && sc.monad != "pure" {
+			// s.bins[i] = v  ==>  the new slice, stored back into s.bins
+			comb := "GoSem.optR"
+			if sc.monad == "loop" {
+				comb = "GoSem.optL"
+			}
+			tn := t.tmp()
+			return comb + " (GoSem.set " + t.expr(l.X, c) + " " + t.expr(l.Index, c) + " " + rhs + ") (fun " + tn + " =>\n" + t.assignTo(l.X, tn, c, sc, k) + ")"
 		}
 	}
 	t.fail(lhs, "unsupported assignment target")
@@ -1340,6 +1515,11 @@ func (t *tr) callStmt(x *ast.CallExpr, lhs []ast.Expr, define bool, sc *sctx, k 
 			}
 		}
 	}
+	if id, ok := x.Fun.(*ast.Ident); ok && id.Name == "copy" && len(lhs) == 0 {
+		if _, ok := t.info.Uses[id].(*types.Builtin); ok {
+			return t.copyStmt(x, c, hs, sc, k)
+		}
+	}
 	fi, args := t.callee(x, c)
 	if fi == nil || (fi.decl == nil && !fi.extern) {
 		// a pure expression call (library function, intrinsic) bound to lhs
@@ -1353,7 +1533,8 @@ func (t *tr) callStmt(x *ast.CallExpr, lhs []ast.Expr, define bool, sc *sctx, k 
 	var pats []string
 	var argExprs []ast.Expr
 	if fi.recv != nil {
-		argExprs = append(argExprs, x.Fun.(*ast.SelectorExpr).X)
+		_, rx := t.explicitSel(x.Fun.(*ast.SelectorExpr))
+		argExprs = append(argExprs, rx)
 	}
 	argExprs = append(argExprs, x.Args...)
 	var post []struct {
@@ -1423,6 +1604,38 @@ func (t *tr) callStmt(x *ast.CallExpr, lhs []ast.Expr, define bool, sc *sctx, k 
 		body = "let " + pat + " := " + app + "\n" + k
 	}
 	return t.wrapHoists(*hs, body, sc)
+}
+
+// `copy(dst, src)` as a statement.  `copy(x[a:], x[b:c])` on one slice is a memmove inside it
+// (`GoSem.copyWithin`); otherwise the destination variable receives `GoSem.copySlice dst src`.
+func (t *tr) copyStmt(x *ast.CallExpr, c *ectx, hs *[]hoist, sc *sctx, k string) string {
+	comb := "GoSem.optR"
+	if sc.monad == "loop" {
+		comb = "GoSem.optL"
+	}
+	dst, src := x.Args[0], x.Args[1]
+	if d, ok := dst.(*ast.SliceExpr); ok {
+		if sc.monad == "pure" {
+			t.fail(x, "copy inside a slice in a pure function")
+		}
+		s2, ok2 := src.(*ast.SliceExpr)
+		if !ok2 || d.High != nil || d.Low == nil || s2.Low == nil || s2.High == nil || d.Slice3 || s2.Slice3 {
+			t.fail(x, "unsupported copy form")
+		}
+		base := t.expr(d.X, c)
+		if base != t.expr(s2.X, c) {
+			t.fail(x, "copy between slices of different variables")
+		}
+		tn := t.tmp()
+		body := comb + " (GoSem.copyWithin " + base + " " + t.expr(d.Low, c) + " " + t.expr(s2.Low, c) + " " + t.expr(s2.High, c) + ") (fun " + tn + " =>\n" +
+			t.assignTo(d.X, tn, c, sc, k) + ")"
+		return t.wrapHoists(*hs, body, sc)
+	}
+	if baseIdent(dst) == nil {
+		t.fail(x, "unsupported copy destination")
+	}
+	v := "(GoSem.copySlice " + t.expr(dst, c) + " " + t.expr(src, c) + ")"
+	return t.wrapHoists(*hs, t.assignTo(dst, v, c, sc, k), sc)
 }
 
 func hasJump(n ast.Node) bool {
@@ -1540,6 +1753,13 @@ func (t *tr) assignedOuter(nodes []ast.Node, declaredInside func(types.Object) b
 				if obj != nil && obj.Name() == "Float64s" && obj.Pkg() != nil && obj.Pkg().Path() == "sort" && len(s.Args) > 0 {
 					add(s.Args[0])
 				}
+				if _, isB := obj.(*types.Builtin); isB && obj.Name() == "copy" && len(s.Args) == 2 {
+					if se, ok := s.Args[0].(*ast.SliceExpr); ok {
+						add(se.X)
+					} else {
+						add(s.Args[0])
+					}
+				}
 			}
 			return true
 		})
@@ -1608,7 +1828,7 @@ func (t *tr) stmt(s ast.Stmt, sc *sctx, kf func() string) string {
 			one = fmt.Sprintf("1#%d", bvWidth(ty))
 		}
 		v := "(" + t.expr(x.X, c) + op + one + ")"
-		if isFloat(ty) {
+		if isFloat(ty) && !t.rat() {
 			fn := "add"
 			if x.Tok == token.DEC {
 				fn = "sub"
@@ -1618,6 +1838,26 @@ func (t *tr) stmt(s ast.Stmt, sc *sctx, kf func() string) string {
 		return t.wrapHoists(*hs, t.assignTo(x.X, v, c, sc, kf()), sc)
 	case *ast.AssignStmt:
 		if len(x.Rhs) == 1 {
+			if ta, ok := x.Rhs[0].(*ast.TypeAssertExpr); ok {
+				conc := t.specialised(ta.X)
+				want := ""
+				if st, ok := ta.Type.(*ast.StarExpr); ok {
+					if id, ok := st.X.(*ast.Ident); ok {
+						want = id.Name
+					}
+				}
+				if conc == "" || conc != want || len(x.Lhs) != 2 || x.Tok != token.DEFINE {
+					t.fail(s, "type assertion (only `o, ok := p.(*T)` on a parameter specialised to T is translated)")
+				}
+				if okId, isId := x.Lhs[1].(*ast.Ident); isId && okId.Name != "_" {
+					if t.knownTrue == nil {
+						t.knownTrue = map[types.Object]bool{}
+					}
+					t.knownTrue[t.info.Defs[okId]] = true
+				}
+				c, _ := t.newE(sc)
+				return t.assignTo(x.Lhs[0], t.expr(ta.X, c), c, sc, kf())
+			}
 			if call, ok := x.Rhs[0].(*ast.CallExpr); ok {
 				if tv, isT := t.info.Types[call.Fun]; !(isT && tv.IsType()) {
 					var obj types.Object
@@ -1729,6 +1969,11 @@ func (t *tr) stmt(s ast.Stmt, sc *sctx, kf func() string) string {
 			rest.Init = nil
 			return t.stmt(x.Init, sc, func() string { return t.stmt(&rest, sc, kf) })
 		}
+		if u, ok := x.Cond.(*ast.UnaryExpr); ok && u.Op == token.NOT && x.Else == nil {
+			if id, ok := u.X.(*ast.Ident); ok && t.knownTrue[t.info.Uses[id]] {
+				return kf() // `if !ok { … }` after a type assertion that succeeds by specialisation: dead code
+			}
+		}
 		c, hs := t.newE(sc)
 		cond := t.expr(x.Cond, c)
 		var elseList []ast.Stmt
@@ -1778,13 +2023,50 @@ func (t *tr) ret(v string, sc *sctx) string {
 	return ".ret " + v
 }
 
+func (t *tr) paramType(fi *funcInfo, p *types.Var) string {
+	if m, ok := t.unit.Specialise[fi.key]; ok {
+		if conc, ok := m[p.Name()]; ok {
+			return t.unit.NS + "." + conc
+		}
+	}
+	return t.leanType(p.Type())
+}
+
+// a result declared with an interface type of this package (`Copy() Store`): the concrete type that every
+// return statement returns
+func (t *tr) resultType(fi *funcInfo, i int) string {
+	rt := fi.sig.Results().At(i).Type()
+	if nm, ok := rt.(*types.Named); ok && nm.Obj().Pkg() == t.pkg {
+		if _, isI := nm.Underlying().(*types.Interface); isI && fi.decl != nil {
+			conc := ""
+			ast.Inspect(fi.decl.Body, func(m ast.Node) bool {
+				if _, isF := m.(*ast.FuncLit); isF {
+					return false
+				}
+				if r, ok := m.(*ast.ReturnStmt); ok && i < len(r.Results) {
+					ty := t.leanType(t.typeOf(r.Results[i]))
+					if conc != "" && conc != ty {
+						t.fail(r, "returns of different concrete types for an interface result")
+					}
+					conc = ty
+				}
+				return true
+			})
+			if conc != "" {
+				return conc
+			}
+		}
+	}
+	return t.leanType(rt)
+}
+
 func (t *tr) retType() string {
 	var tys []string
 	for _, mi := range t.cur.mutated {
-		tys = append(tys, t.leanType(t.cur.allParams()[mi].Type()))
+		tys = append(tys, t.paramType(t.cur, t.cur.allParams()[mi]))
 	}
 	for i := 0; i < t.cur.sig.Results().Len(); i++ {
-		tys = append(tys, t.leanType(t.cur.sig.Results().At(i).Type()))
+		tys = append(tys, t.resultType(t.cur, i))
 	}
 	if len(tys) == 0 {
 		return "Unit"
@@ -1798,9 +2080,14 @@ func (t *tr) rangeStmt(x *ast.RangeStmt, sc *sctx, k string) string {
 	if sc.monad == "pure" {
 		t.fail(x, "loop in a pure function")
 	}
+	keyName := ""
 	if x.Key != nil {
-		if id, ok := x.Key.(*ast.Ident); !ok || id.Name != "_" {
-			t.fail(x, "range with an index variable")
+		id, ok := x.Key.(*ast.Ident)
+		if !ok {
+			t.fail(x, "range with a non-identifier index")
+		}
+		if id.Name != "_" {
+			keyName = lname(id.Name) // the index: an extra argument of the recursion, counted up from 0
 		}
 	}
 	sl, ok := t.typeOf(x.X).Underlying().(*types.Slice)
@@ -1857,6 +2144,9 @@ func (t *tr) rangeStmt(x *ast.RangeStmt, sc *sctx, k string) string {
 	}
 	stTuple := tuple(stNames)
 	recCall := rec + " «rest» " + strings.Join(stNames, " ")
+	if keyName != "" {
+		recCall = rec + " «rest» (" + keyName + " + 1) " + strings.Join(stNames, " ")
+	}
 	inner := &sctx{monad: "loop", brk: ".done " + stTuple, cont: recCall}
 	body := t.stmts(x.Body.List, inner, recCall)
 	if strings.Contains(body, " fuel") {
@@ -1866,12 +2156,17 @@ func (t *tr) rangeStmt(x *ast.RangeStmt, sc *sctx, k string) string {
 		t.fail(x, "fallible call with fuel inside a range loop")
 	}
 	sig.WriteString(" : List (" + t.leanType(sl.Elem()) + ")")
+	keyPat := ""
+	if keyName != "" {
+		sig.WriteString(" → Int")
+		keyPat = keyName + ", "
+	}
 	for _, ty := range stTypes {
 		sig.WriteString(" → " + ty)
 	}
 	sig.WriteString(" → Loop (" + strings.Join(stTypes, " × ") + ") (" + t.retType() + ")\n")
-	sig.WriteString("  | [], " + strings.Join(stNames, ", ") + " => .done " + stTuple + "\n")
-	sig.WriteString("  | " + val + " :: «rest», " + strings.Join(stNames, ", ") + " =>\n")
+	sig.WriteString("  | [], " + keyPat + strings.Join(stNames, ", ") + " => .done " + stTuple + "\n")
+	sig.WriteString("  | " + val + " :: «rest», " + keyPat + strings.Join(stNames, ", ") + " =>\n")
 	sig.WriteString(indent(body, "    ") + "\n\n")
 	t.aux.WriteString(sig.String())
 	c, hs := t.newE(sc)
@@ -1881,6 +2176,9 @@ func (t *tr) rangeStmt(x *ast.RangeStmt, sc *sctx, k string) string {
 		comb = "Loop.elimL"
 	}
 	call := rec + " " + xs + " " + strings.Join(stNames, " ")
+	if keyName != "" {
+		call = rec + " " + xs + " (0 : Int) " + strings.Join(stNames, " ")
+	}
 	return t.wrapHoists(*hs, comb+" ("+call+") (fun "+stTuple+" =>\n"+k+")", sc)
 }
 
@@ -2084,13 +2382,13 @@ func (t *tr) analyseMutation() {
 				case *ast.AssignStmt:
 					for _, l := range s.Lhs {
 						switch l.(type) {
-						case *ast.StarExpr, *ast.SelectorExpr:
+						case *ast.StarExpr, *ast.SelectorExpr, *ast.IndexExpr:
 							mark(l)
 						}
 					}
 				case *ast.IncDecStmt:
 					switch s.X.(type) {
-					case *ast.StarExpr, *ast.SelectorExpr:
+					case *ast.StarExpr, *ast.SelectorExpr, *ast.IndexExpr:
 						mark(s.X)
 					}
 				case *ast.CallExpr:
@@ -2123,6 +2421,13 @@ func (t *tr) analyseMutation() {
 					}
 					if obj != nil && obj.Name() == "Float64s" && obj.Pkg() != nil && obj.Pkg().Path() == "sort" && len(s.Args) > 0 {
 						mark(s.Args[0])
+					}
+					if _, isB := obj.(*types.Builtin); isB && obj.Name() == "copy" && len(s.Args) == 2 {
+						if se, ok := s.Args[0].(*ast.SliceExpr); ok {
+							mark(se.X)
+						} else {
+							mark(s.Args[0])
+						}
 					}
 				}
 				return true
@@ -2223,10 +2528,33 @@ func (t *tr) emitStructs() {
 	for v := range t.vars {
 		use(v.Type())
 	}
-	for _, n := range names {
-		if !used[n] {
-			continue
+	// a struct after the structs of its fields
+	var ordered []string
+	done := map[string]bool{}
+	var visit func(n string)
+	visit = func(n string) {
+		if done[n] || !used[n] {
+			return
 		}
+		done[n] = true
+		st := scope.Lookup(n).Type().Underlying().(*types.Struct)
+		for i := 0; i < st.NumFields(); i++ {
+			ft := st.Field(i).Type()
+			if p, ok := ft.(*types.Pointer); ok {
+				ft = p.Elem()
+			}
+			if nm, ok := ft.(*types.Named); ok && nm.Obj().Pkg() == t.pkg {
+				if _, ok := nm.Underlying().(*types.Struct); ok {
+					visit(nm.Obj().Name())
+				}
+			}
+		}
+		ordered = append(ordered, n)
+	}
+	for _, n := range names {
+		visit(n)
+	}
+	for _, n := range ordered {
 		st := scope.Lookup(n).Type().Underlying().(*types.Struct)
 		if t.unit.Mode == "mops" {
 			fmt.Fprintf(&t.out, "structure %s (F : Type) where\n", n)
@@ -2284,7 +2612,7 @@ func (t *tr) emitFunc(fi *funcInfo) {
 		sig.WriteString(" (fuel : Nat)")
 	}
 	for _, p := range fi.allParams() {
-		sig.WriteString(" (" + lname(p.Name()) + " : " + t.leanType(p.Type()) + ")")
+		sig.WriteString(" (" + lname(p.Name()) + " : " + t.paramType(fi, p) + ")")
 	}
 	rt := t.retType()
 	if fi.res {
@@ -2383,7 +2711,11 @@ func translateUnit(repo string, u transUnit) (text string, errMsg string) {
 		}
 		obj := t.info.Defs[fd.Name].(*types.Func)
 		sig := obj.Type().(*types.Signature)
-		fi := &funcInfo{key: key, lean: key, decl: fd, sig: sig, recv: sig.Recv(), mutSet: map[*types.Var]bool{}}
+		lean := key
+		if key == "min" || key == "max" {
+			lean = "go" + strings.ToUpper(key[:1]) + key[1:] // not to shadow Lean's own min / max
+		}
+		fi := &funcInfo{key: key, lean: lean, decl: fd, sig: sig, recv: sig.Recv(), mutSet: map[*types.Var]bool{}}
 		t.funcs[key] = fi
 		t.byObj[obj] = fi
 	}
